@@ -198,19 +198,6 @@ def _has_plain_ndarray(v):
     return False
 
 
-def _known(key):
-    try:
-        for l in open(os.path.join(VERIF, 'known_findings.jsonl')):
-            l = l.strip()
-            if l and not l.startswith('#'):
-                d = json.loads(l)
-                if d.get('property') == 'C09' and d.get('key') == key and d.get('status') == 'open':
-                    return True
-    except (OSError, ValueError):
-        pass
-    return False
-
-
 _name_cache = {}
 
 
@@ -665,13 +652,18 @@ class C09(Property):
     def _arr(self, rng, q, k=None, as_arr=None):
         k = rng.randint(1, 4) if k is None else k
         if (rng.random() < 0.5) if as_arr is None else as_arr:
-            us = _units_for_dims(rng, _book(q)[2])
-            if us:      # (an empty unit list would be a PLAIN ndarray, which takes the shortcut branch of to_unitless: modelled there only)
-                return {'arr': {'mags': [_mag(rng) for _ in range(k)], 'u': us}}
+            # an empty unit list is a PLAIN ndarray (its own branch of to_unitless; since fix 005cbe4 it converts like a list)
+            return {'arr': {'mags': [_mag(rng) for _ in range(k)], 'u': _units_for_dims(rng, _book(q)[2])}}
         return {'l': [_compat_q(rng, q) for _ in range(k)]}
 
+    def _dimless_or_q(self, rng):
+        """mostly a random lattice quantity; sometimes a scaled dimensionless one, so that plain ndarrays / numbers can be mixed in"""
+        if rng.random() < 0.2:
+            return {'mag': _mag(rng), 'u': rng.choice([[['km', 1], ['m', -1]], [['cm', 1], ['m', -1]], [['mmol', 1], ['mol', -1]], [['s', 1], ['ms', -1]]])}
+        return _q(rng)
+
     def _g_concat(self, rng, tier):
-        q = _q(rng)
+        q = self._dimless_or_q(rng)
         arrays = [self._arr(rng, q) for _ in range(rng.randint(1, 3))]
         r = rng.random()
         if r < 0.12:
@@ -683,7 +675,7 @@ class C09(Property):
         return {'op': 'concatenate', 'arrays': arrays}
 
     def _g_tile(self, rng, tier):
-        q = _q(rng)
+        q = self._dimless_or_q(rng)
         a = self._arr(rng, q)
         if rng.random() < 0.1 and 'l' in a:
             a['l'].append(_q(rng))
@@ -1009,11 +1001,6 @@ class C09(Property):
             ub = (F(1), F(1), (0,) * 7) if u is None else _book(u)
             bad = [x for x in leaves if 's' in x or _book(x)[2] != ub[2]]
             call = lambda: cu.to_unitless(_real_val(c['v']), None if u is None else _real(u))
-            if _has_plain_ndarray(c['v']) and u is not None and 'u' in u and not any(ub[2]) and ub[0] == 1 and ub[1] != 1 \
-                    and not _known('ndarray-dimensionless-unit-shortcut'):
-                # DEFECT (reported, notes/C09.md #6): plain ndarray + dimensionless unit of magnitude 1 and factor != 1 is returned unconverted.
-                # Silent until the coordinator lists the key in known_findings.jsonl (then it is reported as KNOWN-FINDING).
-                return None
             if bad:
                 return self._raises(call)
             try:
@@ -1362,8 +1349,6 @@ class C09(Property):
         return op
 
     def known_key(self, c, failure):
-        if c.get('op') == 'to_unitless' and _has_plain_ndarray(c.get('v', {})):
-            return 'ndarray-dimensionless-unit-shortcut'
         return None
 
 
